@@ -6,8 +6,10 @@ def random_problem(rng, d=None, n=None, noise="err"):
     from inference.gp import (SquaredExponential, RationalQuadratic, WhiteNoise, HeteroscedasticNoise, ChangePoint,
                               ConstantMean, LinearMean, QuadraticMean)
     d = d or int(rng.integers(1, 4))
-    n = n or int(rng.integers(2, 13))
+    n = n or int(rng.integers(1, 13))
     x = rng.normal(size=(n, d)) * 10 ** rng.uniform(-0.5, 0.5) + rng.normal() * 3
+    if noise == "err" and rng.uniform() < 0.25:
+        x = x + 10 ** rng.uniform(3, 6)          # coordinates far from zero relative to their spread (time stamps ...)
     y = np.sin(x.sum(axis=1)) + 0.3 * rng.normal(size=n) + rng.normal() * 2
     kname = str(rng.choice(["SE", "RQ", "SE+WN", "RQ+SE", "CP", "SE+HN", "CP3", "CP4"]))
     mk = {"SE": SquaredExponential, "RQ": RationalQuadratic, "WN": WhiteNoise, "HN": HeteroscedasticNoise}
